@@ -147,6 +147,9 @@ def gen_stmts(d, lists, scal, p_fold=12):
         elif r < 76:
             k = d.randint(0, emax * 2)
             out.append(["expr", ["bin", d.choice(["==", "<=", ">=", "!="]), ["sum", n], L(k) if d.chance(70) else ["f", d.choice(scal)]]])
+        elif r < 80:
+            k = d.choice([0, 1, 2, 3, 4, 6, 8, 9, 12, 27])
+            out.append(["expr", ["bin", d.choice(["==", "<=", ">=", "!="]), ["prod", n], L(k) if d.chance(70) else ["f", d.choice(scal)]]])
         elif r < 84:
             out.append(["uniql", n])
         elif r < 88 and len(lists) > 1 and all(x["mode"] != "randsz" for x in lists) and lists[0].get("size") == lists[1].get("size") \
@@ -237,7 +240,7 @@ def _only_size(e, n):
     k = e[0]
     if k == "sz":
         return True
-    if k in ("sum", "el", "inl"):
+    if k in ("sum", "prod", "el", "inl"):
         return False
     if k == "bin":
         return _only_size(e[2], n) and _only_size(e[3], n)
@@ -417,6 +420,9 @@ def run_case(case):
             return [], info      # outside the enumerated size range
         if not const_subscripts_ok(stmts, cur, lists):
             return [], info      # an edit made a constant subscript / membership operand invalid: user error, not judged
+        if any('"prod"' in cjson(s_) for s_ in stmts) and any(l["mode"] != "randsz" and not cur[l["name"]] for l in lists
+                                                              if ('["prod","%s"]' % l["name"]) in cjson(stmts)):
+            return [], info      # the product of an empty list is not specified (the library says 0): not judged
         sols = enumerate_lists(types, lists, cur, cls["fields"], {"n0": n0, "s0": 0}, stmts)
         if sols is None:
             return [], info
@@ -486,7 +492,7 @@ def run_case(case):
 def couples(case):
     for s in case["prog"]["classes"][0]["blocks"][0]["stmts"]:
         t = cjson(s)
-        if '"sum"' in t or '"uniql"' in t or '"uvec"' in t or ('"el"' in t and '"-"' in t) or ('"sz"' in t and '"f"' in t):
+        if '"sum"' in t or '"prod"' in t or '"uniql"' in t or '"uvec"' in t or ('"el"' in t and '"-"' in t) or ('"sz"' in t and '"f"' in t):
             return True
         if s[0] == "foreach" and any(b[0] == "foreach" for b in s[4]):
             return True
